@@ -429,3 +429,158 @@ Fixpoint ref_opc_f (fuel : nat) (s : list N) : list msg :=
     end
   end.
 Definition ref_opc (s : list N) : list msg := ref_opc_f (length s) s.
+
+(* ------------------------------------------------------------------ ACN over TCP (IncomingStreamTransport) *)
+(* a_data = [m_buffer_start, m_data_end), a_cap = BufferSize() (0 = no buffer yet), a_out =
+   m_outstanding_data, a_block/a_cons = m_block_size/m_consumed_block_size, a_lsize = m_pdu_length_size,
+   a_psize = m_pdu_size.  The inflator is the harness' recording inflator: it is handed the whole PDU
+   and reports all of it consumed.  A delivered message is (0, PDU bytes). *)
+Inductive ast := A_PRE | A_FLAGS | A_LEN | A_PDU.
+Record astate := { a_st : ast; a_data : list N; a_out : N; a_block : N; a_cons : N; a_lsize : N;
+                   a_psize : N; a_cap : N; a_valid : bool }.
+Definition ACN_HEADER : list N := [65; 83; 67; 45; 69; 49; 46; 49; 55; 0; 0; 0].
+Definition ACN_INITIAL_SIZE : N := 500.
+Definition a_init : astate :=
+  {| a_st := A_PRE; a_data := []; a_out := 16; a_block := 0; a_cons := 0; a_lsize := 2; a_psize := 0;
+     a_cap := 0; a_valid := true |}.
+
+Fixpoint list_eqb (a b : list N) : bool :=
+  match a, b with
+  | [], [] => true
+  | x :: a', y :: b' => (x =? y) && list_eqb a' b'
+  | _, _ => false
+  end.
+
+Definition be32 (l : list N) : N :=
+  match l with a :: b :: c :: d :: _ => ((a * 256 + b) * 256 + c) * 256 + d | _ => 0 end.
+Definition lflag (b0 : N) : bool := negb (N.land b0 128 =? 0).          (* *buf & LFLAG_MASK *)
+Definition pdu_len (ls : N) (d : list N) : N :=
+  match d with
+  | b0 :: b1 :: r =>
+    if ls =? 3 then match r with b2 :: _ => b2 + b1 * 256 + N.land b0 15 * 65536 | [] => 0 end
+    else b1 + N.land b0 15 * 256
+  | _ => 0
+  end.
+
+(* EnterWaitingForPreamble / EnterWaitingForPDU *)
+Definition a_enter_pre (s : astate) : astate :=
+  {| a_st := A_PRE; a_data := []; a_out := 16; a_block := a_block s; a_cons := a_cons s;
+     a_lsize := a_lsize s; a_psize := a_psize s; a_cap := a_cap s; a_valid := a_valid s |}.
+Definition a_enter_pdu (s : astate) : astate :=
+  {| a_st := A_FLAGS; a_data := []; a_out := 1; a_block := a_block s; a_cons := a_cons s;
+     a_lsize := a_lsize s; a_psize := a_psize s; a_cap := a_cap s; a_valid := a_valid s |}.
+Definition a_invalid (s : astate) : astate :=
+  {| a_st := a_st s; a_data := a_data s; a_out := a_out s; a_block := a_block s; a_cons := a_cons s;
+     a_lsize := a_lsize s; a_psize := a_psize s; a_cap := a_cap s; a_valid := false |}.
+
+(* HandlePreamble / HandlePDUFlags / HandlePDULength / HandlePDU (the switch in Receive) *)
+Definition a_handle (s : astate) : astate * list msg :=
+  match a_st s with
+  | A_PRE =>
+    if negb (list_eqb (take 12 (a_data s)) ACN_HEADER) then (a_invalid s, [])
+    else
+      let bs := be32 (drop 12 (a_data s)) in
+      let s1 := {| a_st := a_st s; a_data := a_data s; a_out := a_out s; a_block := bs;
+                   a_cons := if bs =? 0 then a_cons s else 0; a_lsize := a_lsize s;
+                   a_psize := a_psize s; a_cap := a_cap s; a_valid := a_valid s |} in
+      (if bs =? 0 then a_enter_pre s1 else a_enter_pdu s1, [])
+  | A_FLAGS =>
+    let ls := match a_data s with b0 :: _ => if lflag b0 then 3 else 2 | [] => 2 end in
+    ({| a_st := A_LEN; a_data := a_data s; a_out := u32 (a_out s + (ls - 1)); a_block := a_block s;
+        a_cons := a_cons s; a_lsize := ls; a_psize := a_psize s; a_cap := a_cap s;
+        a_valid := a_valid s |}, [])
+  | A_LEN =>
+    let ps := pdu_len (a_lsize s) (a_data s) in
+    let s1 := {| a_st := a_st s; a_data := a_data s; a_out := a_out s; a_block := a_block s;
+                 a_cons := a_cons s; a_lsize := a_lsize s; a_psize := ps; a_cap := a_cap s;
+                 a_valid := a_valid s |} in
+    if ps <? a_lsize s then (a_invalid s1, [])
+    else ({| a_st := A_PDU; a_data := a_data s; a_out := u32 (a_out s + usub32 ps (a_lsize s));
+             a_block := a_block s; a_cons := a_cons s; a_lsize := a_lsize s; a_psize := ps;
+             a_cap := a_cap s; a_valid := a_valid s |}, [])
+  | A_PDU =>
+    if negb (len (a_data s) =? a_psize s) then (a_invalid s, [])
+    else
+      let c := u32 (a_cons s + a_psize s) in
+      let s1 := {| a_st := a_st s; a_data := a_data s; a_out := a_out s; a_block := a_block s;
+                   a_cons := c; a_lsize := a_lsize s; a_psize := a_psize s; a_cap := a_cap s;
+                   a_valid := a_valid s |} in
+      (if c =? a_block s then a_enter_pre s1 else a_enter_pdu s1, [(0, a_data s)])
+  end.
+
+(* ReadRequiredData, with IncreaseBufferSize; None = a store outside the buffer *)
+Definition a_read (s : astate) (av : list N) : option (astate * list N) :=
+  if a_out s =? 0 then Some (s, av)
+  else
+    let free := usub32 (a_cap s) (len (a_data s)) in
+    let want := len (a_data s) + a_out s in
+    let cap1 := if free <? a_out s
+                then (if want <=? a_cap s then a_cap s else N.max want ACN_INITIAL_SIZE)
+                else a_cap s in
+    let got := take (a_out s) av in
+    if cap1 <? len (a_data s) + len got then None
+    else Some ({| a_st := a_st s; a_data := a_data s ++ got; a_out := usub32 (a_out s) (len got);
+                  a_block := a_block s; a_cons := a_cons s; a_lsize := a_lsize s;
+                  a_psize := a_psize s; a_cap := cap1; a_valid := a_valid s |},
+               drop (a_out s) av).
+
+(* the `while (true)` loop of IncomingStreamTransport::Receive; None also when the fuel runs out
+   (two iterations per available byte always suffice) *)
+Fixpoint a_loop (fuel : nat) (s : astate) (av : list N) : option (astate * list N * list msg) :=
+  match fuel with
+  | O => None
+  | Datatypes.S f =>
+    match a_read s av with
+    | None => None
+    | Some (s1, av1) =>
+      if negb (a_valid s1) || negb (a_out s1 =? 0) then Some (s1, av1, [])
+      else
+        let (s2, o) := a_handle s1 in
+        if negb (a_valid s2) then Some (s2, av1, o)
+        else match a_loop f s2 av1 with
+             | Some (s3, r, o3) => Some (s3, r, o ++ o3)
+             | None => None
+             end
+    end
+  end.
+
+(* one on-data callback; once Receive() has returned false the caller closes the connection:
+   whatever else arrives is discarded *)
+Definition a_recv (s : astate) (av : list N) : option (astate * list N * list msg) :=
+  if negb (a_valid s) then Some (s, [], [])
+  else a_loop (2 * length av + 4) s av.
+
+(* Reference framer, from the wire format: a stream is a sequence of blocks; a block is the 12-byte
+   ACN packet identifier, a 4-byte big-endian block length L and PDUs whose lengths add up to L; a
+   PDU starts with flags|length (top bit set: 3 length bytes, else 2; the low nibble of the first
+   byte holds the high length bits) and the length counts the whole PDU.  A wrong identifier or a
+   length smaller than its own field invalidates the stream: nothing after it is delivered.
+   `blk` = Some (L, consumed) inside a block. *)
+Fixpoint ref_acn_f (fuel : nat) (blk : option (N * N)) (s : list N) : list msg :=
+  match fuel with
+  | O => []
+  | Datatypes.S f =>
+    match blk with
+    | None =>
+      if len s <? 16 then []
+      else if negb (list_eqb (take 12 s) ACN_HEADER) then []
+      else
+        let L := be32 (drop 12 s) in
+        ref_acn_f f (if L =? 0 then None else Some (L, 0)) (drop 16 s)
+    | Some (L, c) =>
+      match s with
+      | [] => []
+      | b0 :: _ =>
+        let ls := if lflag b0 then 3 else 2 in
+        if len s <? ls then []
+        else
+          let n := pdu_len ls s in
+          if n <? ls then []
+          else if len s <? n then []
+          else
+            let c' := u32 (c + n) in
+            (0, take n s) :: ref_acn_f f (if c' =? L then None else Some (L, c')) (drop n s)
+      end
+    end
+  end.
+Definition ref_acn (s : list N) : list msg := ref_acn_f (Datatypes.S (length s)) None s.
